@@ -86,28 +86,18 @@ def gather_cases(tier, seed, ck):
     return cases
 
 
-def run(tier, seed, replay):
-    ck = vlib.Check("C03", tier, seed)
-    ck.rule = ("trees = spec/WxmlExpr.tla Trees (leaves, every one-operator tree, literals at every operand position, "
-               "every operator at every operand position of every operator) x redundant-parenthesis variants x "
-               "whitespace/comment spellings; each evaluated under environments drawn from a 14-value edge pool per free "
-               "identifier; non-trivial = distinct (tree, spelling) with at least one operator")
-    ck.assumptions = ["node 20 evaluates each primitive operator and literal spelling (delta-rule)",
-                      "runtime/refrt.js delivers the raw value of a single-binding attribute through R.r",
-                      "pool functions are pure, so evaluation order inside an expression is not observable"]
-    if replay:
-        case = json.load(open(replay))["case"]
-        cases = [{"tree": case["tree"], "text": case["text"], "extra": False}]
-        tier_env = ("thorough", 3000, True)
-    else:
-        cases = gather_cases(tier, seed, ck)
+def evaluate(ck, cases, tier, seed, on_mismatch, template_of=None, count_nontrivial=True):
+    """Compile every case's template (default `<v a="{{ text }}"/>`), run it under the reference runtime for a pool of
+    environments and compare the value reaching attribute `a` with the reference value of case["tree"].
+    on_mismatch(case, mismatch) is called for every disagreement."""
+    template_of = template_of or (lambda c: '<v a="{{ %s }}"/>' % c["text"])
     nenv, full = (120, False) if tier == "quick" else (2000, True)
     # compile in chunks: one template group per chunk
     size = 400
     chunks = [cases[i:i + size] for i in range(0, len(cases), size)]
     vcases = []
     for ci, ch in enumerate(chunks):
-        files = [["e/%d" % k, '<v a="{{ %s }}"/>' % c["text"]] for k, c in enumerate(ch)]
+        files = [["e/%d" % k, template_of(c)] for k, c in enumerate(ch)]
         vcases.append({"id": ci, "files": files, "want": ["groups"]})
     vres = vlib.run_vh("tmpl", vcases)
     # a panic inside the compiler is C01's business, but it must not hide the rest of its chunk:
@@ -118,7 +108,7 @@ def run(tier, seed, replay):
             extra_chunks.extend([[c] for c in ch])
     if extra_chunks:
         base = len(chunks)
-        evc = [{"id": base + i, "files": [["e/0", '<v a="{{ %s }}"/>' % ch[0]["text"]]], "want": ["groups"]}
+        evc = [{"id": base + i, "files": [["e/0", template_of(ch[0])]], "want": ["groups"]}
                for i, ch in enumerate(extra_chunks)]
         eres = vlib.run_vh("tmpl", evc)
         chunks = chunks + extra_chunks
@@ -141,8 +131,8 @@ def run(tier, seed, replay):
                 skipped_diag += 1
                 ck.notes.append("not accepted by the parser: %s" % c["text"]) if len(ck.notes) < 20 else None
                 continue
-            jcases.append({"path": "e/%d" % k, "tree": c["tree"], "text": c["text"]})
-            if c["tree"]["k"] not in ("id", "lit") or c.get("lit"):
+            jcases.append(dict(c, path="e/%d" % k))
+            if count_nontrivial and (c["tree"]["k"] not in ("id", "lit") or c.get("lit")):
                 ck.nontrivial(c["text"])
         jobs.append({"bundle": r["groups"], "cases": jcases, "nenv": nenv, "seed": seed + ci, "full": full})
     nres = vlib.run_node("drive_expr.js", jobs, jobs=min(vlib.NCPU, len(jobs)), timeout=3000)
@@ -157,10 +147,7 @@ def run(tier, seed, replay):
         for m in r["mismatches"]:
             if "more" in m:
                 continue
-            c = by_path[m["path"]]
-            ck.report({"sig": "value", "tree": c["tree"], "text": c["text"], "env": m["env"], "got": m["got"],
-                       "want": m["want"], "classes": known_sig(c["tree"]), "cls": sorted(set(m.get("cls", [])))},
-                      "{{ %s }} with %s: generated code gives %s, JavaScript gives %s" % (m["text"], m["env"], m["got"], m["want"]))
+            on_mismatch(by_path[m["path"]], m)
         oracle_problems.extend(r["oracle"])
         if len(ck.samples) < 3 and job["cases"]:
             ck.sample({"text": job["cases"][len(job["cases"]) // 2]["text"], "tree": job["cases"][len(job["cases"]) // 2]["tree"], "environments": nenv})
@@ -170,5 +157,27 @@ def run(tier, seed, replay):
         raise vlib.ToolError("evalref and node disagree on %d cases" % len(oracle_problems))
     ck.extra["skipped_not_accepted"] = skipped_diag
     ck.extra["cases_skipped_for_panic"] = skipped_panic
+
+
+def run(tier, seed, replay):
+    ck = vlib.Check("C03", tier, seed)
+    ck.rule = ("trees = spec/WxmlExpr.tla Trees (leaves, every one-operator tree, literals at every operand position, "
+               "every operator at every operand position of every operator) x redundant-parenthesis variants x "
+               "whitespace/comment spellings; each evaluated under environments drawn from a 14-value edge pool per free "
+               "identifier; non-trivial = distinct (tree, spelling) with at least one operator")
+    ck.assumptions = ["node 20 evaluates each primitive operator and literal spelling (delta-rule)",
+                      "runtime/refrt.js delivers the raw value of a single-binding attribute through R.r",
+                      "pool functions are pure, so evaluation order inside an expression is not observable"]
+    if replay:
+        case = json.load(open(replay))["case"]
+        cases = [{"tree": case["tree"], "text": case["text"], "extra": False}]
+        tier_env = ("thorough", 3000, True)
+    else:
+        cases = gather_cases(tier, seed, ck)
+    def on_mismatch(c, m):
+        ck.report({"sig": "value", "tree": c["tree"], "text": c["text"], "env": m["env"], "got": m["got"],
+                   "want": m["want"], "classes": known_sig(c["tree"]), "cls": sorted(set(m.get("cls", [])))},
+                  "{{ %s }} with %s: generated code gives %s, JavaScript gives %s" % (m["text"], m["env"], m["got"], m["want"]))
+    evaluate(ck, cases, tier, seed, on_mismatch)
     ck.exhaustive = (tier != "quick")
     return ck.finish()
